@@ -446,4 +446,9 @@ def main_wrapper(fn):
     except Inconclusive as e:
         print("INCONCLUSIVE: %s" % e)
         sys.exit(2)
+    except Exception:          # a defect of the machinery itself is never a verdict about the code
+        import traceback
+        traceback.print_exc()
+        print("INCONCLUSIVE: internal error of the check (see the traceback)")
+        sys.exit(2)
     sys.exit(rc)
